@@ -39,6 +39,14 @@ def configs(tier, seed):
             cfgs.append(dict(move="subtree", n=n, D=1, G=5, proposal=prop, outlier_prior=op, wiring=wiring, threshold=thr,
                              N=2, alpha=alphas[k % 3], data_seed=seed * 1000 + k % 11))
             k += 1
+    # a single particle in the subtree move and in the sweep
+    for prop, op in itertools.product(PROPOSALS, [0.0, 0.2]):
+        cfgs.append(dict(move="subtree", n=2, D=1, G=4, proposal=prop, outlier_prior=op, wiring=["library", "run"][k % 2],
+                         threshold=0.5, N=1, alpha=alphas[k % 3], data_seed=seed * 1000 + k % 11))
+        k += 1
+    cfgs.append(dict(move="sweep", n=2, D=1, G=4, proposal=PROPOSALS[seed % 3], outlier_prior=0.2, wiring="run", threshold=0.5,
+                     N=1, subtree_update_prob=0.5, alpha=alphas[k % 3], data_seed=seed * 1000 + k % 11))
+    k += 1
     # sweep composition: one iteration of the run loop itself (n<=2, where every move conserves flow exactly)
     for prop, op, sp in itertools.product(PROPOSALS, [0.0, 0.2], [0.0, 0.5, 1.0]):
         if tier == "quick" and (k + seed) % 3:
@@ -197,6 +205,93 @@ def classify_subtree(ctx, cfg, rows, n_forests):
     return True, "law equals the documented algorithm (dev %.1e); whole-tree update invariant (%.1e)" % (worst, resid)
 
 
+class _SpyDist(object):
+    """Stands in for the tree distribution handed to the data-point and prune-regraft moves: every density they ask for is
+    also evaluated on a from-scratch rebuild (memoisation bypassed) of the same candidate tree."""
+
+    def __init__(self, inner, by_idx, fails, stats):
+        self._inner, self._by_idx, self._fails, self._stats = inner, by_idx, fails, stats
+
+    def __getattr__(self, name):
+        return getattr(self._inner, name)
+
+    def log_p_one(self, tree, *a, **k):
+        from vlib import monitors
+
+        v = self._inner.log_p_one(tree, *a, **k)
+        self._stats["densities"] = self._stats.get("densities", 0) + 1
+        if self._stats["densities"] <= 4000:
+            forest, _n = gen.tree_to_forest(tree)
+            with monitors.unmemoised():
+                fresh, _fn = gen.build_tree(forest, self._by_idx, grid_size=tree.grid_size)
+            ref = self._inner.log_p_one(fresh)
+            if not abs(float(v) - float(ref)) <= 1e-8 * (1 + abs(float(ref))):
+                if not monitors.densities_inside_window(fresh):
+                    self._stats["outside_window"] = self._stats.get("outside_window", 0) + 1
+                elif len(self._fails) < 3:
+                    self._fails.append({"used": float(v), "density_of_the_candidate": float(ref),
+                                        "candidate": gen.key_str(forest.key())})
+        return v
+
+
+def sequence_task(task):
+    """Sequences of the real moves applied to one tree object as a sweep applies them (no rebuild in between, internal
+    layouts left by earlier grafts): the weights with which the data-point and prune-regraft moves choose among their
+    candidates must be the joint densities of those candidate trees - otherwise the draw is not the Gibbs conditional
+    / the exact reattachment law, whatever the start tree."""
+    from vlib.harness import Partial, describe_exception
+    from phyclone.mcmc import DataPointSampler, ParticleGibbsSubtreeSampler, PruneRegraphSampler
+    from phyclone.smc.kernels import SemiAdaptedKernel
+    from phyclone.smc.utils import RootPermutationDistribution
+    from phyclone.tree import FSCRPDistribution, TreeJointDistribution
+    from phyclone.utils.dev import clear_proposal_dist_caches
+
+    part = Partial()
+    for c in range(task["count"]):
+        rng = np.random.default_rng([task["seed"], task["shard"], c, 44])
+        n = int(rng.integers(4, 8))
+        op = [0.0, 0.2][c % 2]
+        data = gen.make_data(rng, n, 1 + c % 2, [5, 11][c % 2], kind=["moderate", "smooth"][c % 2], outlier_prior=op)
+        by_idx = {dp.idx: dp for dp in data}
+        f = gen.random_forest(rng, n, p_outlier=0.15 if op > 0 else 0.0, shape=[None, "chain", "bushy"][c % 3], min_clones=3)
+        td = TreeJointDistribution(FSCRPDistribution([0.5, 1.0, 3.0][c % 3]))
+        fails, stats = [], {}
+        spy = _SpyDist(td, by_idx, fails, stats)
+        kernel = SemiAdaptedKernel(td, rng, outlier_proposal_prob=0.1 if op > 0 else 0.0, perm_dist=RootPermutationDistribution())
+        moves = {"dp": DataPointSampler(spy, rng, outliers=op > 0).sample_tree, "prg": PruneRegraphSampler(spy, rng).sample_tree,
+                 "subtree": ParticleGibbsSubtreeSampler(kernel, rng, num_particles=3, resample_threshold=0.5).sample_tree}
+        tree, _names = gen.build_tree(f, data)
+        tree.relabel_nodes()
+        log = []
+        case = {"seed": task["seed"], "shard": task["shard"], "case": c, "n": n, "outlier_prior": op, "start": f.describe()}
+        try:
+            for step in range(task["steps"]):
+                name = ["prg", "dp", "subtree", "dp", "prg", "dp"][int(rng.integers(0, 6))]
+                clear_proposal_dist_caches()
+                tree = moves[name](tree)
+                log.append(name)
+                part.count("evaluations")
+                part.count("sequence_moves_" + name)
+                if fails:
+                    break
+        except Exception as e:
+            et, where, msg = describe_exception(e)
+            if where == "outside-repo":
+                import traceback
+                part.inconc("harness error in move sequence: " + traceback.format_exc()[-700:])
+            else:
+                part.violation("%s in %s during a sequence of moves (%s)" % (et, where, " ".join(log[-6:])), dict(case, msg=msg))
+            continue
+        part.count("candidate_densities_recomputed", min(stats.get("densities", 0), 4000))
+        part.count("candidate_densities_outside_underflow_window", stats.get("outside_window", 0))
+        part.see("seq|%d|%s|%s" % (n, op, gen.key_str(f.key())))
+        for fl in fails[:1]:
+            part.violation("a move chose among its candidate trees with a weight that is not the joint density of the "
+                           "candidate (stale likelihood after earlier moves on the same tree: not the exact conditional)",
+                           dict(case, moves=log, **fl))
+    return None, part
+
+
 def run(ctx):
     ctx.rule = ("every start forest over n<=3 (n<=4 thorough for the Gibbs moves) x move (data-point, prune-regraft, "
                 "subtree particle Gibbs with 3 proposals) x outliers on/off x wiring; exact transition rows by replaying "
@@ -264,5 +359,9 @@ def run(ctx):
         ctx.violation("flow not conserved by the %s move: proposal=%s wiring=%s outliers=%s n=%d"
                       % (cfg["move"], cfg.get("proposal"), cfg.get("wiring"),
                          "on" if cfg.get("outlier_prior", 0) > 0 else "off", cfg["n"]), witness)
+    stasks = [{"seed": ctx.seed, "shard": i, "count": 6 if ctx.tier == "quick" else 120, "steps": 14} for i in range(16)]
+    ctx.map("checks.c04", "sequence_task", stasks, timeout=1800)
+    if ctx.counters.get("candidate_densities_recomputed", 0) < 2000:
+        ctx.inconc("fewer than 2000 candidate densities recomputed in move sequences")
     if ctx.counters.get("paths", 0) < 1000:
         ctx.inconc("fewer than 1000 replayed paths")
